@@ -6,7 +6,7 @@
 (* result is computed by the specification module of that function.        *)
 (* Divergences are collected as data.  TRACE / OUT as in Trace_Session.    *)
 (***************************************************************************)
-EXTENDS ScriptNum, Flags, Json, IOUtils, TLC
+EXTENDS ScriptNum, Flags, TxCodec, Amounts, Json, IOUtils, TLC
 
 Tr == ndJsonDeserialize(IOEnv.TRACE)
 OutFile == IOEnv.OUT
@@ -45,6 +45,32 @@ DefaultObserved(ev) == [flags |-> SetOfSeq(ev.flags), n |-> Len(ev.flags)]
 MonoExpected(ev) == [implication |-> TRUE]
 MonoObserved(ev) == [implication |-> (SetOfSeq(ev.A) \subseteq SetOfSeq(ev.B)) /\ (ev.okB => ev.okA)]
 
+(* ---- C13: transaction decoding / identifiers / re-encoding, amount prefixes ---- *)
+TxExpected(ev) ==
+    LET codes == StrToCodes(ev.hex)
+        \* long inputs are always plain hex in the generated corpus: decode them with the Java primitive (the character-level
+        \* reading in TLA+ costs ~30 microseconds per character)
+        ht == IF Len(codes) > 3000 THEN <<TRUE, HexToBytes(ev.hex)>> ELSE HexText(codes)
+        p == Parse(ht[2])
+        tx == p[2]
+    IN IF ~ht[1] \/ ~p[1] THEN [ok |-> "no"]
+       ELSE IF p[3] # Len(ht[2]) THEN [ok |-> "unspec"]          \* bytes after the lock time: outside the compared domain
+       ELSE [ok |-> "yes", reser |-> BytesToHex(ht[2]), reser2 |-> BytesToHex(SerializeTx(tx)), txid |-> BytesToHex(TxId(tx)), wtxid |-> BytesToHex(WTxId(tx)),
+             shown |-> BytesToHex(Reverse(TxId(tx))), version |-> BytesToHex(tx.version), locktime |-> BytesToHex(tx.locktime), haswit |-> HasWitness(tx),
+             vin |-> [i \in 1..Len(tx.vin) |-> [txid |-> BytesToHex(tx.vin[i].txid), n |-> BytesToHex(tx.vin[i].n), script |-> BytesToHex(tx.vin[i].script),
+                                                sequence |-> BytesToHex(tx.vin[i].sequence), wit |-> [k \in 1..Len(tx.wit[i]) |-> BytesToHex(tx.wit[i][k])]]],
+             vout |-> [i \in 1..Len(tx.vout) |-> [amount |-> BytesToHex(tx.vout[i].amount), script |-> BytesToHex(tx.vout[i].script)]]]
+TxObserved(ev) ==
+    IF ~ev.ok THEN [ok |-> "no"]
+    ELSE [ok |-> "yes", reser |-> ev.reser, reser2 |-> ev.reser, txid |-> ev.txid, wtxid |-> ev.wtxid, shown |-> ev.shown, version |-> ev.version, locktime |-> ev.locktime,
+          haswit |-> ev.haswit, vin |-> ev.vin, vout |-> ev.vout]
+AmtExpected(ev) ==
+    LET items == SplitOn(StrToCodes(ev.text), 44, <<>>)
+        parsed == [i \in 1..Len(items) |-> ParseAmount(items[i])]
+    IN IF \E i \in 1..Len(items) : ~parsed[i][1] THEN [ok |-> FALSE, amounts |-> <<>>]
+       ELSE [ok |-> TRUE, amounts |-> [i \in 1..3 |-> IF i <= Len(items) THEN <<IsNeg(parsed[i][2]), BytesToHex(Mag(parsed[i][2]))>> ELSE <<FALSE, "">>]]
+AmtObserved(ev) == [ok |-> ev.ok, amounts |-> IF ev.ok THEN [i \in 1..3 |-> IF i <= Len(ev.amounts) THEN <<ev.amounts[i][1], ev.amounts[i][2]>> ELSE <<FALSE, "??">>] ELSE <<>>]
+
 Init == l = 1 /\ divs = <<>> /\ cov = {} /\ stats = [calls |-> 0]
 
 Judge(ev, exp, obs, class) ==
@@ -59,6 +85,10 @@ Next ==
     /\ LET ev == Tr[l] IN
        IF ev.e = "Num" THEN Judge(ev, NumExpected(ev), NumObserved(ev), NumClass(ev))
        ELSE IF ev.e = "Enc" THEN Judge(ev, EncExpected(ev), EncObserved(ev), EncClass(ev))
+       ELSE IF ev.e = "Tx" THEN
+            (IF TxExpected(ev).ok = "unspec" THEN /\ stats' = [stats EXCEPT !.calls = @ + 1] /\ cov' = cov \cup {<<"Tx", "trailing-bytes">>} /\ UNCHANGED divs
+             ELSE Judge(ev, TxExpected(ev), TxObserved(ev), <<"Tx", ev.ok, IF ev.ok THEN ev.haswit ELSE FALSE, IF ev.ok THEN Len(ev.vin) ELSE 0>>))
+       ELSE IF ev.e = "Amt" THEN Judge(ev, AmtExpected(ev), AmtObserved(ev), <<"Amt", ev.ok>>)
        ELSE IF ev.e = "FlagList" THEN Judge(ev, FlagListExpected(ev), FlagListObserved(ev), <<"FlagList", ev.accepted, Len(ev.flags)>>)
        ELSE IF ev.e = "DefaultFlags" THEN Judge(ev, DefaultExpected(ev), DefaultObserved(ev), <<"DefaultFlags">>)
        ELSE IF ev.e = "MonoPair" THEN Judge(ev, MonoExpected(ev), MonoObserved(ev), <<"MonoPair", ev.okA, ev.okB>>)
